@@ -594,6 +594,49 @@ def rule_decision(F, R):
     R.floor("R-C06-7", n_ok, 2, "classification error kernels")
 
 
+def rule_inherited_flags(F, R, fns):
+    """R-C06-9: an objective that is the mean of a loss over affine predictions (the linear and the three gradient-boosting objectives) is
+    convex / smooth only if its loss is: the value its constructor hands to function_t::convex() is `yes` only under a condition that has
+    `<loss>.convex()` as a conjunct, the one handed to smooth() only under `<loss>.smooth()` (further conjuncts, like `l1reg <= 0`, only restrict)."""
+    n = 0
+
+    def conj(x):
+        x = skip(x)
+        while x["k"] == "paren" and x.get("c"):
+            x = skip(x["c"][0])
+        if x["k"] == "bin" and x["op"] == "&&":
+            return conj(x["c"][0]) + conj(x["c"][1])
+        return [x]
+    for f in fns:
+        if not f.raw.get("ctor") or f.body is None:
+            continue
+        has_loss = any("loss_t" in (p_.get("t") or "") for p_ in f.params)
+        if not has_loss:
+            continue
+        for c in f.calls(lambda c: callee(c) in ("nano::function_t::convex", "nano::function_t::smooth") and len(args(c)) == 1):
+            which = callee(c).split("::")[-1]
+            a = skip(args(c)[0])
+            n += 1
+            inst = "%s %s()" % ((f.cls or "?").replace("nano::", ""), which)
+            if a["k"] != "cond":
+                yes = pp(a).endswith("::yes")
+                R.check(not yes, "R-C06-9", inst, f.loc(c), "the flag depends on the loss", "the objective declares itself %s whatever its loss is" % which)
+                continue
+            then_yes, else_yes = pp(a["c"][1]).endswith("::yes"), pp(a["c"][2]).endswith("::yes")
+            if then_yes == else_yes:
+                R.incomplete("R-C06-9", inst, f.loc(c), "cannot read `%s`" % pp(a)[:80])
+                continue
+            if else_yes:
+                R.incomplete("R-C06-9", inst, f.loc(c), "the flag is `yes` on the negative branch of `%s`" % pp(a["c"][0])[:60])
+                continue
+            cs = conj(a["c"][0])
+            ok = any(x["k"] == "call" and callee(x) == "nano::loss_t::" + which for x in cs)
+            R.check(ok, "R-C06-9", inst, f.loc(c), "`yes` only if the loss is %s" % which,
+                    "the objective declares itself %s under `%s`, which does not require the loss to be %s: with a loss that is not (cauchy, savage, tangent: smooth but not "
+                    "convex; mae, hinge, pinball: convex but not smooth) the declaration is false - f(z) >= f(x) + g(x).(z-x) fails" % (which, pp(a["c"][0])[:60], which))
+    R.floor("R-C06-9", n, 6, "convex()/smooth() declarations of the loss-based objectives")
+
+
 def run(ctx):
     R = ctx.report
     bench = ["src/function/benchmark/sphere.cpp", "src/function/benchmark/chained_cb3I.cpp", "src/function/benchmark/chained_cb3II.cpp",
@@ -614,6 +657,7 @@ def run(ctx):
     rule_strong_convexity(F, R, fns)
     rule_decision(F, R)
     # the ML objectives' own terms: regulariser value / gradient pair of the linear objective, gboost's gradient objective (= R-C09-4)
+    rule_inherited_flags(F, R, fns)
     c09.rule_regularisers(F, R, rule="R-C06-8")
     c09.rule_linear_chain(F, R, rule="R-C06-8")
     c09.rule_sample_axis(F, R, rule="R-C06-8")
